@@ -3,7 +3,8 @@
 (* abstract dictionary.  The harness records Call / Ret of every get-or-create *)
 (* and lookup on the real MetricMetaDatabase / MetricIndexDatabase (many       *)
 (* goroutines, flushes, reopen, crash images); each return must be explained   *)
-(* by a linearizable name -> id map.                                           *)
+(* by a linearizable name -> id map.  The index-loop histories (shard index     *)
+(* event loop under gated schedules, module IDDictSeries) add Postings.        *)
 (* key = <<kind, scope, name>>; ids of one id space never collide.             *)
 EXTENDS Integers, Sequences, FiniteSets, TLC, Json
 
@@ -69,7 +70,16 @@ TReopen == Ev("Reopen") /\ conf' = {} /\ calls' = Empty /\ UNCHANGED dict
 \* flush steps do not change the abstract dictionary
 TNote == Ev("Note") /\ UNCHANGED vars
 
-TraceNext == TReset \/ TCall \/ TRetID \/ TRetNone \/ TReopen \/ TNote
+\* the series ids the shard index knows for one metric (metric => series ids postings, read at a quiescent point).
+\* The next new series id of the metric is derived from them after a restart (IDDictSeries: NewID), so the id of
+\* every series the dictionary resolves must be among them (IDDictSeries: UsedDurable, seen from outside).
+TPostings ==
+  /\ Ev("Postings")
+  /\ LET ids == {Line.ids[i] : i \in 1..Len(Line.ids)} IN
+     \A k \in conf : (k[1] = "series" /\ k[2] = Line.scope) => dict[k] \in ids
+  /\ UNCHANGED vars
+
+TraceNext == TReset \/ TCall \/ TRetID \/ TRetNone \/ TReopen \/ TNote \/ TPostings
 TraceSpec == TraceInit /\ [][TraceNext]_tvars
 
 \* C09 on the abstract dictionary: injective per id space over the confirmed entries
